@@ -3,7 +3,7 @@
 # usage: tools/run_seeded.py [ids...] [--all-props]
 import json, os, shutil, subprocess, sys, time
 V = os.path.dirname(os.path.dirname(os.path.abspath(__file__)))
-REPO = "/repo"
+REPO = os.environ.get("MW_REPO", "/repo")
 sys.path.insert(0, os.path.join(V, "tools"))
 import props
 ids = [a for a in sys.argv[1:] if not a.startswith("--")] or sorted(os.listdir(os.path.join(V, "seeded")))
